@@ -127,7 +127,7 @@ func c13ObjectProgram(s Src) (string, *C13Expect) {
 	n := s.Int("nstmts", 2, 8)
 	terminal := false
 	for i := 0; i < n && !terminal; i++ {
-		switch s.Int("stmt", 0, 17) {
+		switch s.Int("stmt", 0, 18) {
 		case 0, 1: // literal whose initialisers print tags
 			keys := drawKeys(s.Int("nk", 2, 6))
 			var parts []string
@@ -190,7 +190,22 @@ func c13ObjectProgram(s Src) (string, *C13Expect) {
 			}
 			nobj++
 			setKeys(nobj)
-			ls = append(ls, fmt.Sprintf("%s ob%d = {%s};", KwVar, nobj, strings.Join(parts, ", ")), fmt.Sprintf("%s ob%d;", KwPrint, nobj), fmt.Sprintf("%s %s(ob%d);", KwPrint, FnKeys, nobj))
+			ls = append(ls, fmt.Sprintf("%s ob%d = {%s};", KwVar, nobj, strings.Join(parts, ", ")))
+			if Bool(s, "writefirst") {
+				// written right after it was built, then after some work, then listed: whatever the
+				// implementation prepares in the background must not show through
+				ls = append(ls, fmt.Sprintf("ob%d.zz_new = 99;", nobj), fmt.Sprintf("%s (%s bw%d = 0; bw%d < %d; bw%d = bw%d + 1) { }", KwFor, KwVar, nobj, nobj, s.Int("work", 0, 40), nobj, nobj),
+					fmt.Sprintf("ob%d.aa_new = 98;", nobj), fmt.Sprintf("%s(ob%d, \"p%02d\");", FnDelete, nobj, start%97))
+			}
+			ls = append(ls, fmt.Sprintf("%s ob%d;", KwPrint, nobj), fmt.Sprintf("%s %s(ob%d);", KwPrint, FnKeys, nobj), fmt.Sprintf("%s %s(ob%d);", KwPrint, FnValues, nobj))
+		case 18: // a long array holding the same object many times, and one of 3000 numbers: printed, minimum and maximum
+			nobj++
+			setKeys(nobj, "k", "m")
+			ls = append(ls, fmt.Sprintf("%s ob%d = {k: 1, m: [1, 2]};", KwVar, nobj),
+				fmt.Sprintf("%s [ob%d, ob%d, ob%d, ob%d, ob%d, ob%d, ob%d, ob%d, ob%d, ob%d, 1, [ob%d, ob%d]];", KwPrint, nobj, nobj, nobj, nobj, nobj, nobj, nobj, nobj, nobj, nobj, nobj, nobj),
+				fmt.Sprintf("%s big%d = [];", KwVar, nobj),
+				fmt.Sprintf("%s (%s bi%d = 0; bi%d < 3000; bi%d = bi%d + 1) { big%d = %s(big%d, (bi%d * 7919) %% 3001); }", KwFor, KwVar, nobj, nobj, nobj, nobj, nobj, FnAppend, nobj, nobj),
+				fmt.Sprintf("%s %s(big%d); %s %s(big%d);", KwPrint, FnMin, nobj, KwPrint, FnMax, nobj))
 		case 13: // two different names, each repeated (anything said about repeated names must come in a fixed order)
 			keys := drawKeys(3)
 			ntag += 5
@@ -368,6 +383,9 @@ func c13ChurnCase(s Src) *Case {
 func c13Case(s Src, kind, prog, stdin string, ex *C13Expect, nsched int, fresh bool) *Case {
 	cs := &Case{Prop: "C13", Kind: kind, Sig: kind, Program: prog, Aux: &Aux{C13: ex}}
 	base := scriptCfg(prog, stdin)
+	if strings.Contains(prog, "< 3000;") {
+		base.Budget += 3000000 // the 3000-element array is built by a loop
+	}
 	nr := strings.Count(prog, "{") + strings.Count(prog, FnKeys) + strings.Count(prog, FnValues) + 8
 	if nr > 400 {
 		nr = 400
